@@ -60,7 +60,11 @@ func (e *Engine) decodeInto(l *Loc, bz *T, path string, depth int) {
 	}
 	switch opaqueKind(l.T) {
 	case "time":
-		l.Val = &TimeVal{Ns: e.decLeaf(path, BVS(64), bz)}
+		ns := e.decLeaf(path+"#nsec", BVS(64), bz)
+		if ns.Op == "uf" {
+			e.pc = append(e.pc, BVCmp("bvult", ns, billion))
+		}
+		l.Val = &TimeVal{Sec: e.decLeaf(path+"#sec", BVS(64), bz), Nsec: ns}
 		return
 	case "sdkint":
 		l.Val = &IntVal{V: e.decLeaf(path, IntS, bz)}
@@ -156,7 +160,7 @@ func (e *Engine) collectLeaves(v Value, t types.Type, path string, leaves *[]enc
 	}
 	switch opaqueKind(t) {
 	case "time":
-		*leaves = append(*leaves, encLeaf{path, v.(*TimeVal).Ns})
+		*leaves = append(*leaves, encLeaf{path + "#sec", v.(*TimeVal).Sec}, encLeaf{path + "#nsec", v.(*TimeVal).Nsec})
 		return
 	case "sdkint":
 		*leaves = append(*leaves, encLeaf{path, v.(*IntVal).V})
